@@ -17,7 +17,7 @@ EXTENDS TraceBase, FiniteSets
 
 VARIABLES tl, tBad, tCnt, seen, ctl
 
-Classes == {"obs_first", "obs_same", "secret_zero_heavy", "secret_f_heavy", "secret_one", "secret_nm1", "secret_random", "secret_neg_half",
+Classes == {"obs_first", "obs_same", "secret_zero", "secret_zero_heavy", "secret_f_heavy", "secret_one", "secret_nm1", "secret_random", "secret_neg_half",
             "secret_pos_half", "secret_odd_y", "secret_even_y", "control_differs", "func_ct_covered", "func_vartime_unreached",
             "build_asm", "build_purego", "op_field", "op_scalar", "op_mult", "op_basemult", "op_msm", "op_key", "op_ecdh", "op_sign", "op_schnorr"}
 
